@@ -14,7 +14,7 @@ def random_rotation(rng):
         [2 * (b * d - a * c), 2 * (c * d + a * b), a * a - b * b - c * c + d * d]])
 
 
-def random_lattice(rng, family=None, rotate=None, scale=1.0):
+def random_lattice(rng, family=None, rotate=None, scale=1.0, skew=60.0):
     from pymatgen.core import Lattice
     family = family or rng.choice(['cubic', 'orthorhombic', 'hexagonal', 'monoclinic', 'triclinic', 'rhombohedral60'])
     if family == 'cubic':
@@ -27,7 +27,7 @@ def random_lattice(rng, family=None, rotate=None, scale=1.0):
     elif family == 'rhombohedral60':
         # strongly skewed: the nearest periodic image of a pair is often not the component-wise nearest one
         a = rng.uniform(6, 10)
-        lat = Lattice.from_parameters(a, a, a, 60, 60, 60)
+        lat = Lattice.from_parameters(a, a, a, skew, skew, skew)
     elif family == 'monoclinic':
         lat = Lattice.monoclinic(*rng.uniform(4, 9, size=3), rng.uniform(95, 120))
     else:
@@ -50,7 +50,10 @@ def hopping_system(seed, n_frames=60, n_diff=3, n_sites=5, n_frame_atoms=2, fami
 
     from gemdat.trajectory import Trajectory
     rng = np.random.default_rng(seed)
-    lat = random_lattice(rng, family=family, rotate=rotate)
+    # systems that go through the periodic state search use 72 degrees for the strongly skewed family: still a cell in which the nearest image of
+    # a pair is often not the component-wise nearest one, but away from the 60 / 120 degree boundary of the reduced form, where the periodic KD-tree
+    # of MDAnalysis loses pairs (known finding C02-kdtree-degenerate-cell, checked by its own witness)
+    lat = random_lattice(rng, family=family, rotate=rotate, skew=72.0)
     if site_positions is None:
         # well separated sites: rejection sampling on min-image distance
         pts = []
